@@ -1,14 +1,21 @@
 (* C10 add_stream starts at the parent position with no gap and no side effects.
-   Proved here, for every reachable state (fewer than 2^62 handles ever created), all configurations and schedules:
-   the allocating step of add_stream initialises the new cursor with the parent's cursor as it is at that step;
-   no step of any agent writes the cursor of a stream that is still in flight (its creator is the only agent that
-   knows it), so the stream is published with exactly that position; once published it is in the published list for
-   as long as its creator or a handle holds it.  Not proved: delivery without gap from there on and 'no loss of
-   backpressure' (window invariant; for a parent shared with a concurrently receiving sibling this is the known
-   finding F11). *)
-From Coq Require Import NArith List Bool.
+   Proved here, for all configurations, populations of handles and schedules:
+   - the allocating step of add_stream initialises the new cursor with the parent's cursor as it is at that step;
+     no step of any agent writes the cursor of a stream still in flight (its creator is the only agent that knows
+     it), so the stream is published with exactly that position; once published it is in the published list for
+     as long as its creator or a handle holds it;
+   - C10_deliveries_begin_at_start_without_gap: for every stream that has been published, the start position
+     recorded by the publishing step is the cursor it was published with, and the positions the stream has
+     delivered are exactly start, start+1, ... up to just before its cursor: nothing before the start, no gap,
+     each once, in order (over [mreachN], counters below 2^62);
+   - backpressure for the new stream: the window invariant of Props/C03.v holds for every registered stream,
+     new ones included.
+   All of it is for executions without the publishing step of known finding F11 (the parent cursor moved between
+   the allocating step and the publishing step because a sibling handle of the parent received concurrently): in
+   that case the start position is stale; see Props/C03.v for the refutation example. *)
+From Coq Require Import NArith List Bool Lia.
 Require Import MQ.Arith64 MQ.Arith64Facts MQ.Types MQ.State MQ.Model MQ.Exec MQ.Reach MQ.Ctl MQ.SumCount MQ.RecvDefs
-  MQ.GroupStep MQ.GroupStep2 MQ.InvReg MQ.InvMisc.
+  MQ.GroupStep MQ.GroupStep2 MQ.InvReg MQ.InvMisc MQ.WinDefs MQ.InvWin MQ.WinRun MQ.InvDeliv MQ.InvStart.
 Import ListNotations.
 Open Scope N_scope.
 
@@ -57,3 +64,62 @@ Example C10_witness :
                              ++ Start 1 (CAddStream 2) :: repeat (Step 1) 12) in
   streams (sh s) = [0; 1] /\ gpos (sh s) 1 = 1 /\ gpos (sh s) 0 = 1.
 Proof. vm_compute. repeat split. Qed.
+
+(* ---- deliveries of a stream begin at its start position ---- *)
+Theorem C10_deliveries_begin_at_start_without_gap : forall c fut s,
+  0 < c_n c -> c_n c <= B61 -> mreachN c fut s ->
+  lenN (ags s) < B62 -> lenN (g_log (sh s)) < B62 ->
+  (forall sg, In sg (streams (sh s)) -> get (g_start (sh s)) sg <> None) /\
+  (forall sg st, get (g_start (sh s)) sg = Some st ->
+     let ps := dposs sg (g_deliv (sh s)) in
+     ps = seqN st (length ps) /\ gpos (sh s) sg = st + lenN ps) /\
+  (forall sid p ser me, In (sid, p, ser, me) (g_deliv (sh s)) -> get (g_start (sh s)) sid <> None).
+Proof.
+  intros c fut s Np Ns R S1 S2.
+  destruct (start_mreachN c Np Ns fut s R (conj S1 S2)) as [G1 G2 G3 G4 G5].
+  destruct (deliv_mreachN c Np Ns fut s R (conj S1 S2)) as (_ & DS & _).
+  split; [exact G3|]. split; [|exact G5].
+  intros sg st E ps. pose proof (G4 sg st E) as EP. fold ps in EP. split; [|exact EP].
+  destruct (DS sg) as [E0 | (E1 & E2)]; fold ps in E0 || fold ps in E1, E2.
+  - rewrite E0. reflexivity.
+  - destruct ps as [|h t] eqn:EPS; [reflexivity|]. cbn [hd] in E1, E2.
+    assert (h = st) by lia. subst h. exact E1.
+Qed.
+Check C10_deliveries_begin_at_start_without_gap : forall c fut s,
+  0 < c_n c -> c_n c <= B61 -> mreachN c fut s ->
+  lenN (ags s) < B62 -> lenN (g_log (sh s)) < B62 ->
+  (forall sg, In sg (streams (sh s)) -> get (g_start (sh s)) sg <> None) /\
+  (forall sg st, get (g_start (sh s)) sg = Some st ->
+     let ps := dposs sg (g_deliv (sh s)) in
+     ps = seqN st (length ps) /\ gpos (sh s) sg = st + lenN ps) /\
+  (forall sid p ser me, In (sid, p, ser, me) (g_deliv (sh s)) -> get (g_start (sh s)) sid <> None).
+Print Assumptions C10_deliveries_begin_at_start_without_gap.
+
+(* what the publishing step records as the start is the cursor the stream is published with *)
+Theorem C10_start_is_published_cursor : forall c me A S o,
+  micro c me A S = Some o ->
+  g_start (o_s o) = g_start S \/
+  (a_pc A = A3 /\ cur S = r_g (a_r A) /\
+   g_start (o_s o) = put (g_start S) (r_ns (a_r A)) (gpos S (r_ns (a_r A)))).
+Proof. exact SlotStepF.micro_gstart. Qed.
+Check C10_start_is_published_cursor : forall c me A S o,
+  micro c me A S = Some o ->
+  g_start (o_s o) = g_start S \/
+  (a_pc A = A3 /\ cur S = r_g (a_r A) /\
+   g_start (o_s o) = put (g_start S) (r_ns (a_r A)) (gpos S (r_ns (a_r A)))).
+Print Assumptions C10_start_is_published_cursor.
+
+(* non-vacuity: stream 1 is added after one value was consumed on stream 0: it starts at position 1 and delivers 1, 2 *)
+Example C10_start_witness :
+  let c := mk_cfg BCast 4 WBusy in
+  exists s, mreachN c false s /\ lenN (ags s) < B62 /\ lenN (g_log (sh s)) < B62 /\
+    get (g_start (sh s)) 1 = Some 1 /\ dposs 1 (g_deliv (sh s)) = [1; 2] /\ gpos (sh s) 1 = 3 /\
+    dposs 0 (g_deliv (sh s)) = [0].
+Proof.
+  cbv zeta.
+  destruct (m_run true (mk_cfg BCast 4 WBusy) (init false)
+              [MCall 0 (CTrySend 5) 60; MCall 0 (CTrySend 6) 60; MCall 0 (CTrySend 7) 60; MCall 1 CTryRecv 60;
+               MCall 1 (CAddStream 2) 60; MCall 2 CTryRecv 60; MCall 2 CTryRecv 60]) as [s|] eqn:E; [|vm_compute in E; discriminate E].
+  exists s. split; [eapply m_run_sound; [apply mrn_init|exact E]|].
+  vm_compute in E. injection E as <-. vm_compute. repeat split; intros X; discriminate X.
+Qed.
